@@ -559,7 +559,8 @@ func parseRateLimit(rateLimit string) (rateCount int, rateWindow time.Duration, 
 		return
 	}
 	win := parts[1]
-	if len(win) > 0 && (win[0] < '0' || win[0] > '9') {
+	// a window without a count ("s", "ms") means one unit; a leading '.' already starts a number
+	if len(win) > 0 && (win[0] < '0' || win[0] > '9') && win[0] != '.' {
 		win = "1" + win
 	}
 	if rateWindow, err = time.ParseDuration(win); err != nil || rateWindow < 0 {
